@@ -25,11 +25,15 @@ def explore(ctx, depth):
     # it must still be addressed by their pairs (round 6, C19_r6_1: only the first `*v` of a join group closed its split)
     import gen as _gen
     nd = [d_ for d_ in (_gen.nested_split_doc(rng) for _ in range(12 if depth == 'quick' else 80)) if d_.get('nest') != 'both'][:5 if depth == 'quick' else 40]
-    cases += docrun.make_cases(ctx, 0, docs=nd)
+    cases = docrun.make_cases(ctx, 0, docs=nd) + cases       # first: an escalated run may be cut before it reaches the end of the list
     docrun.fill_views(ctx, cases, 'kern', docrun.ALLC, '_v')
     for case in cases:
         if case.doc is None:
             continue
+        if ctx.elapsed() > 420:
+            # an escalated quick run (a modelled function changed) uses the thorough plan: it is cut here rather than stopped by the time budget
+            ctx.notes.append('exploration cut after 420 s (%d documents left)' % (len(cases) - cases.index(case)))
+            break
         lines = case.text.split('\n')[:-1]
         bars = [i for i, l in enumerate(lines) if c07.is_bar(l)]
         M = len(case.doc.measure_start_tree_stages)
@@ -94,6 +98,15 @@ def explore(ctx, depth):
                             continue   # a fragment without a measure of its own (preamble only): the empty pair has nothing to address
                         ctx.fail({**inp, 'pair': [a, b], 'clause': 'export of a pair'}, 'exporting a returned pair raises', impl=got)
                         break
+                    # the text a pair addresses is a score of its own (C08's clauses on C08's core: header line first, cell counts that follow the spine
+                    # operators, every spine terminated) - round 6, C19_r6_1: the data lines were right, a stray `*^` line stood above them
+                    from . import c08 as _c08
+                    if _c08.core_doc(case.adoc):
+                        tr_ = _c08.track(got['ok'])
+                        if not tr_['ok']:
+                            ctx.fail({**inp, 'pair': [a, b], 'clause': 'the export of a pair is a well-formed score'},
+                                     'exporting pair i does not give a well-formed Humdrum text: ' + tr_['why'], impl=got['ok'])
+                            break
                     data = [l for l in got['ok'].split('\n') if c07.is_data(l)]
                     if data != want:
                         ctx.fail({**inp, 'pair': [a, b], 'clause': 'data lines of the fragment'}, 'exporting pair i does not reproduce the data lines of fragment i',
